@@ -97,7 +97,7 @@ def run(tier):
 
     # spec -> code: every initial state of the model is a scenario for the real parser
     scn = []
-    for g in (['q', 'qg', '2f'] if quick else ['t', 't3', '2f']):
+    for g in (['q', 'qg', '2f'] if quick else ['t', 't3', 'qg', '2f']):
         scn += vlib.scenarios('Barcode', 'MC_Barcode_gen_%s.cfg' % g, timeout=900)['scenarios']
     if not scn:
         raise vlib.MachineryError('no scenarios generated')
